@@ -180,6 +180,21 @@ def find_sites(repo, shims_by_module):
     return sites, R
 
 
+def _error_test_kind(t, name):
+    """`name` tested for a non-zero / positive error code, in any equivalent spelling -> '!=0' | '>0' | None"""
+    from . import pq, cq
+    try:
+        e = pq.PB().build(t, {})
+        for want, kind in ((f"{name} != 0", "!=0"), (f"{name} > 0", ">0")):
+            if cq.same_cond(e, cq.parse(want), True):
+                return kind
+        if e == ('sym', name):
+            return "!=0"
+    except Exception:
+        return None
+    return None
+
+
 def error_discipline(site):
     """(ok, how): the shim's return value is bound and tested, and the true branch raises, on the path after the call.
     Accepted tests: `r != 0`, `r > 0` (caller must check that the kernel never returns a negative code), `r`."""
@@ -198,16 +213,7 @@ def error_discipline(site):
     for s in rest:
         if isinstance(s, ast.If):
             t = s.test
-            kind = None
-            if isinstance(t, ast.Compare) and isinstance(t.left, ast.Name) and t.left.id == name and len(t.ops) == 1:
-                c = t.comparators[0]
-                if isinstance(c, ast.Constant) and c.value == 0:
-                    if isinstance(t.ops[0], ast.NotEq):
-                        kind = "!=0"
-                    elif isinstance(t.ops[0], ast.Gt):
-                        kind = ">0"
-            elif isinstance(t, ast.Name) and t.id == name:
-                kind = "!=0"
+            kind = _error_test_kind(t, name)
             if kind and raises(s.body):
                 return True, kind, s
             if kind:
